@@ -132,6 +132,10 @@ pub enum Ext {
 #[derive(Serialize, Deserialize)]
 pub enum Color { Red, Green, Blue }
 
+/// std's network address types consult `is_human_readable()` on both sides of the bridge
+#[derive(Serialize, Deserialize)]
+pub struct NetS { pub ip: std::net::IpAddr, pub peer: Option<std::net::SocketAddr>, pub n: u8 }
+
 #[derive(Serialize, Deserialize)]
 pub struct TsColorOpt(pub Color, pub Option<String>, pub Color, pub Option<()>);
 
